@@ -53,5 +53,75 @@ theorem C08_growth_strictly_extends (last : MemoVal) (s2 : PState) (depth : Nat)
   simp [hd] at hgrow
   omega
 
+/-! ### kernel-evaluated witnesses of two listed findings (the model reproduces the code; the same inputs are
+    replayed against the real generated parser by the check) -/
+
+namespace Witness
+
+def lit (id : Nat) (s : String) : Expr := .lit id (s.toList.map (·.toNat)) false ("\"" ++ s ++ "\"")
+
+/-- `S <- E ("+" X)* !.` ; `E <- E "+" X ";" / X` (leader) ; `X <- "-" { return text, errors.New("dup") }` -/
+def rulesD26 : List Rule :=
+  [ { name := "S", displayName := "", leader := false, leftRecursive := false,
+      expr := .seq 1 [.ruleRef 2 "E", .zeroOrMore 3 (.seq 4 [lit 5 "+", .ruleRef 6 "X"]), .not 7 (.any 8)] },
+    { name := "E", displayName := "", leader := true, leftRecursive := true,
+      expr := .choice 9 2 7 [.seq 10 [.ruleRef 11 "E", lit 12 "+", .ruleRef 13 "X", lit 14 ";"], .ruleRef 15 "X"] },
+    { name := "X", displayName := "", leader := false, leftRecursive := false,
+      expr := .action 16 1 (lit 17 "-") } ]
+
+def codeD26 : CodeEnv :=
+  { args := fun _ => [],
+    run := fun _ ctx => { ret := .bytes ctx.text, state := ctx.state, global := ctx.global, err := some "dup" } }
+
+def envD26 (memo : Bool) : Env :=
+  { flags := { optimize := false, globalState := false, leftRec := true, basicLatin := false },
+    opts := { memoize := memo }, rules := rulesD26, code := codeD26, toLower := id,
+    input := "-+-;+-".toList.map (·.toNat) }
+
+def errsOf : Final → List String
+  | .ret _ errs _ => errs
+  | _ => []
+
+/-- **Finding D26 on the model**: the plain parser reports the error of every `X` (offsets 0, 2, 5);
+    with `Memoize(true)` the error at offset 5 — raised inside the discarded growth attempt, rolled
+    back with it, and answered from the memo table afterwards — is missing. -/
+theorem C08_D26_memo_loses_rolled_back_error :
+    errsOf (parse (envD26 false) 40) = ["1:1 (0): rule X: dup", "1:3 (2): rule X: dup", "1:6 (5): rule X: dup"] ∧
+    errsOf (parse (envD26 true) 40) = ["1:1 (0): rule X: dup", "1:3 (2): rule X: dup"] := by
+  decide
+
+/-- `Expr <- Add "x" / "a"` ; `Add <- Expr "y" / "b"` (leader: `Add`, the smaller name); start rule `Expr` -/
+def rulesD25 : List Rule :=
+  [ { name := "Expr", displayName := "", leader := false, leftRecursive := true,
+      expr := .choice 1 1 9 [.seq 2 [.ruleRef 3 "Add", lit 4 "x"], lit 5 "a"] },
+    { name := "Add", displayName := "", leader := true, leftRecursive := true,
+      expr := .choice 6 2 8 [.seq 7 [.ruleRef 8 "Expr", lit 9 "y"], lit 10 "b"] } ]
+
+/-- the iteration the grammar denotes: `Expr <- ("b" "x" / "a") ("y" "x")*` -/
+def rulesD25iter : List Rule :=
+  [ { name := "Expr", displayName := "", leader := false, leftRecursive := false,
+      expr := .seq 1 [.choice 2 1 9 [.seq 3 [lit 4 "b", lit 5 "x"], lit 6 "a"], .zeroOrMore 7 (.seq 8 [lit 9 "y", lit 10 "x"])] } ]
+
+def envD25 (rules : List Rule) (lr : Bool) (inp : String) : Env :=
+  { flags := { optimize := false, globalState := false, leftRec := lr, basicLatin := false },
+    opts := {}, rules := rules, code := { args := fun _ => [], run := fun _ ctx => { state := ctx.state, global := ctx.global } },
+    toLower := id, input := inp.toList.map (·.toNat) }
+
+def consumed : Final → Option Nat
+  | .ret _ [] s => some s.pt.pos.off
+  | _ => none
+
+/-- **Finding D25 on the model**: entered through the rule that is not the leader, the left-recursive
+    pair matches only `a` of `ayxy` (the iteration it denotes matches `ayx`), and rejects `bxy`
+    (the iteration matches `bx`). -/
+theorem C08_D25_nonleader_entry_is_not_greedy :
+    consumed (parse (envD25 rulesD25 true "ayxy") 40) = some 1 ∧
+    consumed (parse (envD25 rulesD25iter false "ayxy") 40) = some 3 ∧
+    consumed (parse (envD25 rulesD25 true "bxy") 40) = none ∧
+    consumed (parse (envD25 rulesD25iter false "bxy") 40) = some 2 := by
+  decide
+
+end Witness
+
 end RT
 end PV
